@@ -344,4 +344,39 @@ theorem sendAll_run (sid : UInt16) (ppid : UInt32) (hp : ppid.toNat ≠ dcPpidDc
       exact h1
     · rw [h2]; simp [Chan.delivered]
 
+theorem sendDataRaw_ppid (cs : List TxChan) (sid : UInt16) (ppid : UInt32) (m : Bytes) :
+    ∀ o ∈ (sendDataRaw cs sid ppid m).2, o.ppid = ppid := by
+  intro o ho
+  unfold sendDataRaw at ho
+  split at ho <;> simp at ho <;> obtain ⟨_, _, _, rfl⟩ := ho <;> rfl
+
+theorem sendAll_ppid (sid : UInt16) (ppid : UInt32) (msgs : List Bytes) :
+    ∀ cs, ∀ o ∈ (sendAll cs sid ppid msgs).2, o.ppid = ppid := by
+  induction msgs with
+  | nil => intro cs o ho; simp [sendAll] at ho
+  | cons m rest ih =>
+    intro cs o ho
+    simp only [sendAll, List.mem_append] at ho
+    cases ho with
+    | inl h => exact sendDataRaw_ppid cs sid ppid m o h
+    | inr h => exact ih _ o h
+
+theorem plRun_data (cs : List DChunk) (hp : ∀ c ∈ cs, c.ppid.toNat ≠ dcPpidDcep) :
+    ∀ pl, plRun procPayload pl cs = plRun procDataP pl cs := by
+  induction cs with
+  | nil => intro pl; rfl
+  | cons c rest ih =>
+    intro pl
+    simp only [plRun_cons, procPayload_data pl c (hp c (by simp))]
+    exact ih (fun c' hc' => hp c' (by simp [hc'])) _
+
+theorem prefix_sandwich {α : Type} (a e m : List α) (h1 : a <+: e) (h2 : e <+: a ++ m) :
+    ∃ j, j ≤ m.length ∧ e = a ++ m.take j := by
+  obtain ⟨t, ht⟩ := h1
+  subst ht
+  have : t <+: m := (List.prefix_append_right_inj a).mp h2
+  have hlen := this.length_le
+  exact ⟨t.length, hlen, by rw [List.prefix_iff_eq_take.mp this]; simp⟩
+
+
 end RtcModel.Sctp
